@@ -330,7 +330,7 @@ func directed() []input {
 }
 
 func gen(r *hx.Rand, tier string) []json.RawMessage {
-	n := 400
+	n := 330
 	stress := []concIn{{2, 200000}, {4, 100000}, {8, 50000}, {16, 40000}, {16, 40000}, {32, 10000}, {64, 4000}, {3, 1}, {1, 1000}}
 	if tier == "thorough" {
 		n = 6000
